@@ -154,11 +154,11 @@ type Script struct {
 
 // ---- literal helpers
 
-func litInt(t Ty, v int64) *Expr    { return &Expr{K: KLit, T: t, V: t.norm(uint64(v))} }
-func litUint(t Ty, v uint64) *Expr  { return &Expr{K: KLit, T: t, V: t.norm(v)} }
-func litF64(v float64) *Expr        { return &Expr{K: KLit, T: F64, V: math.Float64bits(v)} }
-func litF32(v float32) *Expr        { return &Expr{K: KLit, T: F32, V: uint64(math.Float32bits(v))} }
-func varRef(n string, t Ty) *Expr   { return &Expr{K: KVar, T: t, N: n} }
+func litInt(t Ty, v int64) *Expr   { return &Expr{K: KLit, T: t, V: t.norm(uint64(v))} }
+func litUint(t Ty, v uint64) *Expr { return &Expr{K: KLit, T: t, V: t.norm(v)} }
+func litF64(v float64) *Expr       { return &Expr{K: KLit, T: F64, V: math.Float64bits(v)} }
+func litF32(v float32) *Expr       { return &Expr{K: KLit, T: F32, V: uint64(math.Float32bits(v))} }
+func varRef(n string, t Ty) *Expr  { return &Expr{K: KVar, T: t, N: n} }
 func bin(op string, t Ty, a, b *Expr) *Expr {
 	return &Expr{K: KBin, T: t, Op: op, A: a, B: b}
 }
